@@ -48,7 +48,7 @@ var fnWhitelist = map[string][]string{
 		"Info.Validate", "Export.Validate", "isContainedIn", "Exports.Validate", "Exports.HasExportContainingSubject", "Mapping.Validate",
 		"CreateValidationResults", "ResponsePermission.Validate", "Permissions.Validate",
 		"OperatorLimits.IsEmpty", "OperatorLimits.Validate", "ExternalAuthorization.Validate",
-		"UserScope.Validate", "SigningKeys.Validate", "Account.Validate", "AccountClaims.Validate", "GenericClaims.Validate", "AuthorizationRequestClaims.Validate", "AuthorizationResponseClaims.Validate", "TimeRange.Validate", "Limits.Validate", "User.Validate", "UserClaims.Validate", "ParseServerVersion", "Operator.validateAccountServerURL", "ValidateOperatorServiceURL", "Operator.validateOperatorServiceURLs", "Operator.Validate", "OperatorClaims.Validate", "OperatorClaims.ExpectedPrefixes", "AccountClaims.ExpectedPrefixes", "UserClaims.ExpectedPrefixes", "ActivationClaims.ExpectedPrefixes", "AuthorizationRequestClaims.ExpectedPrefixes", "AuthorizationResponseClaims.ExpectedPrefixes", "GenericClaims.ExpectedPrefixes", "loadClaims", "ClaimsData.verify", "parseHeaders", "Decode", "v1OperatorClaims.migrateV1", "v1UserClaims.migrateV1", "v1ActivationClaims.migrateV1", "SigningKeys.Add", "v1AccountClaims.migrateV1", "UserClaims.Encode", "ActivationClaims.Encode", "OperatorClaims.Encode", "AccountClaims.Encode", "GenericClaims.Encode", "AuthorizationRequestClaims.Encode", "AuthorizationResponseClaims.Encode", "OperatorClaims.updateVersion", "AccountClaims.updateVersion", "UserClaims.updateVersion", "ActivationClaims.updateVersion", "AuthorizationRequestClaims.updateVersion", "AuthorizationResponseClaims.updateVersion", "DecodeOperatorClaims", "DecodeAccountClaims", "DecodeUserClaims", "DecodeAuthorizationRequestClaims", "DecodeAuthorizationResponseClaims", "UserScope.ValidateScopedSigner", "NewUserClaims", "UserClaims.SetScoped",
+		"UserScope.Validate", "SigningKeys.Validate", "Account.Validate", "AccountClaims.Validate", "GenericClaims.Validate", "AuthorizationRequestClaims.Validate", "AuthorizationResponseClaims.Validate", "TimeRange.Validate", "Limits.Validate", "User.Validate", "UserClaims.Validate", "ParseServerVersion", "Operator.validateAccountServerURL", "ValidateOperatorServiceURL", "Operator.validateOperatorServiceURLs", "Operator.Validate", "OperatorClaims.Validate", "OperatorClaims.ExpectedPrefixes", "AccountClaims.ExpectedPrefixes", "UserClaims.ExpectedPrefixes", "ActivationClaims.ExpectedPrefixes", "AuthorizationRequestClaims.ExpectedPrefixes", "AuthorizationResponseClaims.ExpectedPrefixes", "GenericClaims.ExpectedPrefixes", "loadClaims", "ClaimsData.verify", "parseHeaders", "Decode", "v1OperatorClaims.migrateV1", "v1UserClaims.migrateV1", "v1ActivationClaims.migrateV1", "SigningKeys.Add", "v1AccountClaims.migrateV1", "UserClaims.Encode", "ActivationClaims.Encode", "OperatorClaims.Encode", "AccountClaims.Encode", "GenericClaims.Encode", "AuthorizationRequestClaims.Encode", "AuthorizationResponseClaims.Encode", "OperatorClaims.updateVersion", "AccountClaims.updateVersion", "UserClaims.updateVersion", "ActivationClaims.updateVersion", "AuthorizationRequestClaims.updateVersion", "AuthorizationResponseClaims.updateVersion", "DecodeOperatorClaims", "DecodeAccountClaims", "DecodeUserClaims", "DecodeAuthorizationRequestClaims", "DecodeAuthorizationResponseClaims", "UserScope.ValidateScopedSigner", "NewUserClaims", "UserClaims.SetScoped", "UserScope.SigningKey", "SigningKeys.AddScopedSigner", "SigningKeys.GetScope", "SigningKeys.Remove", "SigningKeys.Keys",
 	},
 	"V1": {
 		"Subject.HasWildCards", "Subject.IsContainedIn", "cleanSubject",
@@ -1796,10 +1796,17 @@ func (c *fnCtx) store(b *block, l ast.Expr, v string) {
 	case *ast.IndexExpr:
 		if _, ok := c.typeOf(x.X).Underlying().(*types.Map); ok {
 			m, k := c.expr(x.X), c.expr(x.Index)
-			if m.m || k.m {
+			if m.m {
 				unsup("partial map store")
 			}
-			c.store(b, x.X, "(← mapSet "+m.s+" "+k.s+" "+v+")")
+			ks := k.s
+			if k.m {
+				// the key is computed by something that can panic: bind it first (Go evaluates it before the store)
+				c.tmpN++
+				ks = fmt.Sprintf("__k%d", c.tmpN)
+				b.add("let %s ← %s", ks, k.opt())
+			}
+			c.store(b, x.X, "(← mapSet "+m.s+" "+ks+" "+v+")")
 			return
 		}
 		unsup("indexed store")
